@@ -81,6 +81,35 @@ theorem C10_weight_cut_table (p : Particle) (w a b : Rat) :
     cases hs : p.sw <;> cases hi : p.iw <;> simp [weight, hf, hs, hi, Rat.one_mul]
   · intro f hf; simp [weight, hf]
 
+/-- a weight of exactly zero (a fully shadowed particle; `exp(-x)` underflowing) is a weight like any
+other: with a positive threshold it is cut, in the scalar form (the product is zero) as well as in the
+pair form (either component), it is never mistaken for "unset" (`None`, which the pair form never cuts);
+a weight exactly equal to the threshold passes; `weight_min=None` (stored as `0`) cuts nothing that
+is non-negative. -/
+theorem C10_zero_weight_cut (p : Particle) (w a b : Rat) :
+    (p.sw = some 0 → 0 < a → skip (.pair a b) p = true) ∧
+    (p.iw = some 0 → 0 < b → skip (.pair a b) p = true) ∧
+    (p.forced = none → (p.sw = some 0 ∨ p.iw = some 0) → 0 < w → skip (.scalar w) p = true) ∧
+    (p.forced = some 0 → 0 < w → skip (.scalar w) p = true) ∧
+    (p.sw = none → p.iw = none → skip (.pair a b) p = false) ∧
+    (p.sw = some a → p.iw = some b → skip (.pair a b) p = false) ∧
+    (weight p = w → skip (.scalar w) p = false) ∧
+    (0 ≤ weight p → skip (.scalar 0) p = false) := by
+  refine ⟨?_, ?_, ?_, ?_, ?_, ?_, ?_, ?_⟩
+  · intro h ha; cases hi : p.iw <;> simp [skip, h, hi, ha]
+  · intro h hb; cases hs : p.sw <;> simp [skip, h, hs, hb]
+  · intro hf h0 hw
+    have : weight p = 0 := by
+      rcases h0 with h | h
+      · cases hi : p.iw <;> simp [weight, hf, h, hi]
+      · cases hs : p.sw <;> simp [weight, hf, h, hs]
+    simp [skip, this, hw]
+  · intro hf hw; simp [skip, weight, hf, hw]
+  · intro hs hi; simp [skip, hs, hi]
+  · intro hs hi; simp [skip, hs, hi, Rat.lt_irrefl]
+  · intro h; simp [skip, h, Rat.lt_irrefl]
+  · intro h; simp only [skip, decide_eq_false_iff_not]; exact Rat.not_lt.2 h
+
 /-- a particle below the cut contributes nothing to any antenna. -/
 theorem C10_skipped_contributes_nothing (c : Comp) (ps qs : List Particle) (p : Particle) (i : Nat)
     (h : skip c.weightMin p = true) : spec c (ps ++ p :: qs) i = spec c (ps ++ qs) i := by
@@ -177,6 +206,9 @@ example : loops cEx 3 [p1, p2, p3] =
       [⟨11, 5⟩, ⟨111, 7⟩, ⟨31, 5⟩, ⟨131, 7⟩], [(1, 11), (1, 111), (3, 31), (3, 131)]⟩,
      ⟨[], [], []⟩] := by decide +kernel
 example : ∀ path g, cEx.propGrid path g = shift g path.tof := fun _ _ => rfl
+example : skip (.pair (1/2) (1/2)) ⟨4, some 0, some 1, none⟩ = true ∧ skip (.scalar (1/10)) ⟨4, some 1, some 0, none⟩ = true ∧
+    skip (.pair (1/2) (1/2)) ⟨4, none, some (1/2), none⟩ = false ∧ skip (.scalar 0) ⟨4, some 0, none, none⟩ = false := by
+  decide +kernel
 example : skip (.pair (1/2) (1/2)) p2 = true ∧ skip (.pair (1/2) (1/2)) p3 = false ∧
     skip (.scalar 0) p2 = false := by decide +kernel
 example : accepts ⟨"X", "propagate", ["signal", "polarization"], 0, [], [], false, false⟩
